@@ -26,6 +26,7 @@ type c05cCase struct {
 	Cycles   int       `json:"cycles"`
 	Order    []int     `json:"order"`
 	Yields   yieldList `json:"yields"`
+	Hold     []bool    `json:"hold,omitempty"` // worker i keeps the first token it is granted until all workers are done (the strategy stays close to full)
 }
 
 type yieldStrategy struct {
@@ -49,7 +50,18 @@ func (y *yieldStrategy) SetLimit(n int) {
 func genC05C(t *rapid.T) c05cCase {
 	c := c05cCase{Strategy: rapid.SampledFrom([]string{"simple", "precise", "lookup", "predicate"}).Draw(t, "strategy")}
 	c.Traj = rapid.SliceOfN(rapid.IntRange(2, 40), 3, 10).Draw(t, "traj")
+	if rapid.Bool().Draw(t, "tight") {
+		// limits around the number of workers: the strategy is often full when an update arrives
+		c.Traj = rapid.SliceOfN(rapid.IntRange(1, 4), 3, 12).Draw(t, "tightTraj")
+	}
 	c.Workers = rapid.IntRange(2, 4).Draw(t, "workers")
+	if rapid.Bool().Draw(t, "holders") {
+		c.Workers = rapid.IntRange(3, 5).Draw(t, "workersH")
+		c.Hold = make([]bool, c.Workers)
+		for i := 0; i < rapid.IntRange(1, c.Workers-2).Draw(t, "nhold"); i++ {
+			c.Hold[i] = true
+		}
+	}
 	c.Cycles = rapid.IntRange(12, 40).Draw(t, "cycles")
 	c.Order = rapid.Permutation(seq(c.Workers)).Draw(t, "order")
 	c.Yields = yieldList(rapid.SliceOfN(rapid.SampledFrom([]uint8{0, 0, 0, 1, 1, 2, 3, 6}), 0, 200).Draw(t, "yields"))
@@ -78,8 +90,15 @@ func runC05C(_ *testing.T, c c05cCase) kit.Outcome {
 	// whenever an update is applied to the strategy it must be the algorithm's estimate of that moment
 	var staleMu sync.Mutex
 	stale := ""
+	refusedFull := false
 	ys := &yieldStrategy{inner: inner, sc: sc}
+	raisedWhileFull := false
+	lastApplied := 8
 	ys.after = func(n int) {
+		if n > lastApplied && b.stratBusy() >= lastApplied {
+			raisedWhileFull = true
+		}
+		lastApplied = n
 		est := b.script.EstimatedLimit()
 		if n != est {
 			staleMu.Lock()
@@ -93,14 +112,41 @@ func runC05C(_ *testing.T, c c05cCase) kit.Outcome {
 	if err != nil {
 		return kit.Outcome{Harness: err.Error()}
 	}
+	sc.install() // the library's own schedule points (default.sampled sits between a completion's release and its update)
+	defer (*sched)(nil).install()
 	start := make(chan struct{})
 	var wg sync.WaitGroup
+	var heldMu sync.Mutex
+	var held []core.Listener
 	worker := func(id int) {
 		defer wg.Done()
 		<-start
 		for i := 0; i < c.Cycles; i++ {
 			l, ok := lim.Acquire(stackKeyCtx(context.Background(), []string{"a", "b"}[(id+i)%2]))
+			if !ok {
+				// nothing can run between the refusal and these reads (one P, no preemption, no schedule point on the
+				// way out): a refusal while the strategy itself reports room under the limit it enforces means the
+				// decision was taken against another (stale) limit than the one the last update installed
+				if bz, lm := b.stratBusy(), b.stratLimit(); bz < lm {
+					staleMu.Lock()
+					if stale == "" {
+						stale = fmt.Sprintf("worker %d cycle %d was refused while the strategy reports busy=%d below its limit=%d (estimate %d, update #%d)", id, i, bz, lm, b.script.EstimatedLimit(), b.script.i)
+					}
+					refusedFull = true
+					staleMu.Unlock()
+				} else {
+					staleMu.Lock()
+					refusedFull = true
+					staleMu.Unlock()
+				}
+			}
 			sc.Point("worker.acquired")
+			if ok && id < len(c.Hold) && c.Hold[id] {
+				heldMu.Lock()
+				held = append(held, l)
+				heldMu.Unlock()
+				return // keeps its token; the harness completes it when every worker is done
+			}
 			if ok {
 				complete(l, 0)
 			}
@@ -122,6 +168,28 @@ func runC05C(_ *testing.T, c c05cCase) kit.Outcome {
 	case <-done:
 	case <-time.After(60 * time.Second):
 		return kit.Outcome{Harness: "workers did not finish within 60 s"}
+	}
+	// what is admitted, not only what is reported: with the holders' tokens still out, fill the limiter until it
+	// refuses; exactly max(1, estimate) tokens must then be outstanding (tokens admitted under a higher limit stay)
+	if b.simple != nil || b.precise != nil {
+		want := b.script.EstimatedLimit()
+		if want < 1 {
+			want = 1
+		}
+		before := len(held)
+		for i := 0; i < want+3; i++ {
+			l, ok := lim.Acquire(context.Background())
+			if !ok {
+				break
+			}
+			held = append(held, l)
+		}
+		if n := len(held); n != want && !(before > want && n == before) && stale == "" {
+			stale = fmt.Sprintf("after all workers finished %d tokens were out; filling the limiter until it refuses gives %d outstanding, the estimate is %d", before, n, b.script.EstimatedLimit())
+		}
+	}
+	for _, l := range held {
+		l.OnIgnore()
 	}
 	if stale != "" {
 		return kit.Viol(c.Strategy+":stale-update-applied", "%s", stale)
@@ -145,7 +213,7 @@ func runC05C(_ *testing.T, c c05cCase) kit.Outcome {
 	if bz := b.stratBusy(); bz != 0 {
 		return kit.Viol(c.Strategy+":busy", "busy=%d after all completions", bz)
 	}
-	return kit.Outcome{NonTrivial: updates >= 2, Labels: []string{"strategy:" + c.Strategy, fmt.Sprintf("updates>=2:%v", updates >= 2)}}
+	return kit.Outcome{NonTrivial: updates >= 2, Labels: []string{"strategy:" + c.Strategy, fmt.Sprintf("updates>=2:%v", updates >= 2), fmt.Sprintf("refusal-seen:%v", refusedFull), fmt.Sprintf("limit-raised-while-full:%v", raisedWhileFull)}}
 }
 
 func TestC05_interleaved_Coop(t *testing.T) {
